@@ -94,7 +94,7 @@ def jobs(tier):
     c = Config(2, [], [], 2, shared=True)
     out.append((cfg_name(c) + '-shared', _job, dict(n=2, hard=[], soft=[], w=2, tier=tier, shared=True)))
     # graphs with a nested (possibly empty) dependency graph as a node: what Scheduler.__init__ hands to the back end (symrun)
-    out.append(('handed-graphs', sched._job_handed_graphs, dict(timeout_ms=20000)))
+    out.append(('handed-graphs', sched._job_handed_graphs, dict(timeout_ms=20000, clauses=['full'])))
     return out
 
 
@@ -102,5 +102,5 @@ def replay(rp):
     import sys
     if rp['job'] == 'handed-graphs':
         from engine.runner import replay_sym
-        return replay_sym(sched.handed_graphs_harness, rp['inputs'])
+        return replay_sym(lambda ex: sched.handed_graphs_harness(ex, ('full',)), rp['inputs'])
     return sched.generic_replay(sys.modules[__name__], rp)
